@@ -30,7 +30,10 @@ def run(ck, tier, which=('scalar', 'element'), observers=None):
         jobs += [{'id': 'hs%d' % m, 'harness': 'vh_hidden_scalar', 'args': [m], 'summaries': kernel_summaries('scalar', 's')} for m in range(len(SMUT))]
     if 'element' in which:
         jobs += [{'id': 'he%d' % m, 'harness': 'vh_hidden_element', 'args': [m], 'summaries': FIELD_SUMM + [SQRT_SUMM], 'concretize': {'slice': [1, 33, 65]}} for m in range(len(EMUT))]
+    reads_before = set(ck.greads)
     runs = ck.absorb(core.symx_parallel(HARNESS, jobs, chunks=12))
+    if observers is not None:
+        ck.greads = reads_before   # what the mutators of a history read is not what the property's own functions read
     ck.extra.setdefault('_runs', []).extend(runs)
     for r in runs:
         kind, m = r.id[:2], int(r.id[2:])
